@@ -108,12 +108,24 @@ def run(ctx):
                          indistinguishability=r.choice([1.0, 0.92, 0.75]), transmittance=r.choice([1.0, 0.8]))
             if noise["g2"] > 0 and n_tot > 2:
                 noise["g2"] = 0.0
-        det = r.choice(["none", "none", "threshold"])
+        det = r.choice(["none", "none", "threshold", "mixed", "mixed"])
+        if det == "threshold":
+            thr_modes = list(range(m))
+        elif det == "mixed":       # threshold detectors on a strict subset of the modes, photon-number resolving elsewhere
+            thr_modes = sorted(j for j in range(m) if r.chance(1, 2))
+            if len(thr_modes) in (0, m):
+                thr_modes = [r.below(m)] if m > 1 else []
+        else:
+            thr_modes = []
+        reconf = r.choice([None, None, "clear_ps", "new_ps", "filter"]) if level_ok(r) else None
         level = r.choice(["processor", "processor", "simulator"])
         backend = r.choice(["SLOS", "Naive"])
         keep = r.chance(1, 2) if level == "simulator" else False
+        if level != "processor":
+            reconf = None
         cases.append(dict(circ=c, m=m, heralds=heralds, free=free, inp=inp, flt=flt, ps_tree=ps_tree, ps_str=ps_str,
-                          noise=noise, det=det, level=level, backend=backend, keep=keep))
+                          noise=noise, det=det, thr=thr_modes, level=level, backend=backend, keep=keep, reconf=reconf,
+                          ps2=rand_ps(r, len(free)), flt2=r.rint(0, sum(inp) + 1)))
 
     # run the implementation first (it also provides the input mixture), then the model in one batch
     reqs, pend = [], []
@@ -134,14 +146,14 @@ def run(ctx):
             if cs["ps_str"]:
                 ps_str_abs = show_ps(ps_tree_abs)
                 p.set_postselection(PostSelect(ps_str_abs))
-            if cs["det"] == "threshold":
-                for j in range(m):
-                    p.add(j, Detector.threshold())
+            for j in cs["thr"]:
+                p.add(j, Detector.threshold())
             p.min_detected_photons_filter(cs["flt"])
             p.with_input(BS_(cs["inp"]))
             svd = p.source_distribution
             mix = mixture_of_svd(svd)
-            thr = list(range(m)) if cs["det"] == "threshold" else []
+            thr = list(cs["thr"])
+            desc["threshold detectors on modes"] = thr
             F = cs["flt"] + sum(heralds.values())
             desc["postselect"] = ps_str_abs
             if cs["level"] == "processor":
@@ -153,10 +165,33 @@ def run(ctx):
                 sim.set_circuit(p.linear_circuit())
                 sim.set_selection(min_detected_photons_filter=cs["flt"], postselect=p.post_select_fn, heralds=dict(heralds))
                 sim.keep_heralds(cs["keep"])
-                res = sim.probs_svd(svd, p.detectors if cs["det"] == "threshold" else None)
+                res = sim.probs_svd(svd, p.detectors if cs["thr"] else None)
                 keep = cs["keep"]
             reqs.append((40, [m, c.U, mix, [[h, v] for h, v in heralds.items()], ps_tree_abs, F, keep, thr]))
             pend.append((cs, desc, res, (m if keep else len(cs["free"]))))
+            # the same long-lived processor, re-configured after a first query: the answer must follow the new settings
+            if cs["reconf"]:
+                d2 = dict(desc)
+                ps2_abs = ps_tree_abs
+                F2 = F
+                if cs["reconf"] == "clear_ps":
+                    p.clear_postselection()
+                    ps2_abs = [0]
+                elif cs["reconf"] == "new_ps":
+                    ps2_abs = remap_ps(cs["ps2"][0], cs["free"])
+                    p.clear_postselection()
+                    p.set_postselection(PostSelect(show_ps(ps2_abs)))
+                else:
+                    p.min_detected_photons_filter(cs["flt2"])
+                    F2 = cs["flt2"] + sum(heralds.values())
+                d2["then"] = {"clear_ps": "probs(); clear_postselection(); probs()",
+                              "new_ps": f"probs(); clear_postselection(); set_postselection({show_ps(ps2_abs) if ps2_abs != [0] else None}); probs()",
+                              "filter": f"probs(); min_detected_photons_filter({cs['flt2']}); probs()"}[cs["reconf"]]
+                res2 = p.probs(precision=0)
+                cs2 = dict(cs)
+                cs2["reconf_done"] = cs["reconf"]
+                reqs.append((40, [m, c.U, mix, [[h, v] for h, v in heralds.items()], ps2_abs, F2, False, thr]))
+                pend.append((cs2, d2, res2, len(cs["free"])))
         except Exception as e:
             ctx.case(["err", str(desc)], False, desc)
             ctx.fail(f"exception-{type(e).__name__}", f"raised {type(e).__name__}: {e}", desc)
@@ -176,8 +211,11 @@ def run(ctx):
         if un_q(out[3]) != 1 and not cs["noise"]:
             ctx.fail("model-mass", "unconditioned model distribution does not have mass 1", desc, 1, str(un_q(out[3])))
         sig = "probs" if cs["level"] == "processor" else "probs_svd"
-        if cs["det"] == "threshold":
-            sig += "-threshold"
+        if cs["thr"]:
+            sig += "-threshold" if cs["det"] == "threshold" else "-mixed-detectors"
+        if cs.get("reconf_done"):
+            sig += "-after-" + cs["reconf_done"]
+            ctx.count("reconfigured." + cs["reconf_done"])
         compare(ctx, sig, desc, res, out, nm)
     ctx.streams["conditioning"] = len(cases)
 
@@ -187,6 +225,10 @@ def run(ctx):
     ctx.count("vm_compute_crosscheck", len(sample))
     if a != b:
         ctx.fail("extraction-vs-vm_compute", "extracted runner and vm_compute disagree", {"n": len(sample)})
+
+
+def level_ok(r):
+    return True
 
 
 def remap_ps(tree, free):
